@@ -42,7 +42,7 @@ def locking_case(draw):
   prefill = draw(st.sampled_from([0, 0, 1, 3, 497, 498, 499, 500, 500]))
   n = draw(st.integers(1, 14))
   ops = draw(st.lists(st.sampled_from(["append", "append", "appendleft", "appendleft", "consume",
-                                       "consume_right", "clear", "len", "popleft", "pop"]),
+                                       "consume_right", "clear", "len", "popleft", "pop", "wait_only"]),
                       min_size=n, max_size=n))
   return {"kind": "locking", "prefill": prefill, "ops": ops}
 
@@ -71,12 +71,15 @@ class C16(Prop):
           "fresh chart and draining it through complete_circuit. (b) LockingDeque (the active "
           "object's queue) with pre-fill 0/1/3/497..500 and up to 14 operations append, "
           "appendleft, consume (= wait(block=False)+popleft), consume_right (wait+pop), raw popleft/pop "
-          "(taken straight out, leaving their token behind), clear, len, with the token queue class substituted by a subclass that raises instead of "
+          "(taken straight out, leaving their token behind), wait_only (a consumer in flight: token "
+          "taken, event not yet popped), clear, len, with the token queue class substituted by a subclass that raises instead of "
           "blocking forever. Oracle: length <= capacity; below capacity a post adds exactly the "
           "new item at the back (fifo) / front (lifo); at capacity the new item is at the back / "
           "front and exactly one old item is displaced with the others keeping their order; "
           "tokens == pending after every step (>= pending once an item was taken out without its "
-          "token); clear() never raises and leaves both at 0; no "
+          "token); a post returns with at least one token per "
+          "pending event even with consumers in flight; clear() never raises and leaves both at 0 "
+          "whatever spare tokens existed; no "
           "operation would block. Non-trivial: the history contains an overflow post or a clear "
           "on an empty queue; distinct = distinct case digests.")
   assumptions = [
@@ -134,6 +137,13 @@ class C16(Prop):
         else:
           results.append(ld.pop() if len(ld) >= 1 else "spare-token")
           ld.task_done()
+      elif op == "wait_only":
+        # a consumer in flight: it has taken its wake-up token but not yet popped its event
+        try:
+          ld.wait(block=False)
+          results.append("token")
+        except stdqueue.Empty:
+          results.append("empty")
       elif op in ("popleft", "pop"):
         # taken straight out, without first waiting for a wake-up token
         try:
@@ -167,7 +177,18 @@ class C16(Prop):
       if len(content) > CAP:
         raise PropertyViolation("%s: holds %d > capacity" % (where, len(content)), "C16:bound")
       raw = any(o in ("popleft", "pop") for o in ops[:upto])
-      if (tokens != len(content) and not raw) or tokens < len(content):
+      inflight = any(o == "wait_only" for o in ops[:upto])
+      last_op = ops[upto - 1] if upto else None
+      if last_op == "clear" and tokens != 0:
+        raise PropertyViolation("%s: clear() left %d wake-up token(s) for an empty queue" % (where, tokens),
+                                "C16:clear")
+      if inflight:
+        # tokens may trail the pending events by the consumers in flight, but a post must return
+        # with at least one token per pending event
+        if last_op in ("append", "appendleft") and tokens < len(content):
+          raise PropertyViolation("%s: a post returned with %d wake-up tokens for %d pending events" % (
+            where, tokens, len(content)), "C16:tokens")
+      elif (tokens != len(content) and not raw) or tokens < len(content):
         # items taken out without their token leave spare tokens behind (harmless wake-ups);
         # there must never be fewer tokens than pending events
         raise PropertyViolation("%s: %d wake-up tokens for %d pending events" % (
@@ -217,6 +238,10 @@ class C16(Prop):
             rest = prev[1:] if op == "consume" else prev[:-1]
             if res != exp or content != rest:
               raise PropertyViolation("%s: consumed %s, expected %s" % (where, res, exp), "C16:consume")
+        elif op == "wait_only":
+          if content != prev:
+            raise PropertyViolation("%s: taking a token changed the queue content" % where, "C16:wait")
+          classes.append("consumer_in_flight")
         elif op == "clear":
           if not prev:
             nontrivial = True
